@@ -41,7 +41,14 @@ class B(A):
 
 
 class X(Plain):
-    pass
+    """A legal component type with value-based equality: every X equals
+    every other X (like a dataclass with equal fields)."""
+
+    def __eq__(self, other):
+        return isinstance(other, X)
+
+    def __hash__(self):
+        return 7
 
 
 class PA(desper.Processor):
@@ -499,7 +506,7 @@ def run_on_update(case):
 
 def drivers(tier):
     if tier == 'quick':
-        return {'twin': (TwinDriver(toggles=True, types=('A', 'B')),
+        return {'twin': (TwinDriver(toggles=True, types=('B', 'X')),
                          dict(max_states=300000, time_budget=300))}
     return {'twin': (TwinDriver(toggles=True, types=('A', 'B', 'X'),
                                 max_postponed=3),
